@@ -268,6 +268,8 @@ func buildHost(s string) interface{} {
 	case 'Q':
 		var p *struct{ A int }
 		return p
+	case 'K':
+		return buildStatic(s)
 	case 'm': // maps and slices that were never made
 		var m map[string]interface{}
 		return m
